@@ -20,6 +20,7 @@ import (
 	"github.com/pilosa/pilosa/encoding/proto"
 	"github.com/pilosa/pilosa/http"
 	"github.com/pilosa/pilosa/roaring"
+	"github.com/pilosa/pilosa/syswrap"
 	"verif/simrt"
 )
 
@@ -112,6 +113,7 @@ func (cl *simCluster) joinNodeAsync(nd *simNode) error {
 }
 
 func newSimCluster(c *simrt.Ctx, n, replicas int) *simCluster {
+	syswrap.SetMaxFileCount(500000) // a fragment-level run in this process may have lowered it
 	cl := &simCluster{c: c, net: simrt.NewNet(c.S), replicas: replicas}
 	gohttp.DefaultClient.Transport = cl.net.Transport("")
 	for i := 0; i < n; i++ {
